@@ -9,6 +9,8 @@ for p in sorted(glob.glob('/verif/seeded/*/meta.json')):
     diff = open(os.path.join(d, 'patch.diff')).read()
     files = sorted(set(re.findall(r'^\+\+\+ b/(\S+)', diff, re.M)))
     what = m.get('summary') or ''
+    if len(what) > 420:
+        what = what[:417] + '...'
     runs = m.get('checks_run', [])
     # final verdict per check = last run of that check
     last = {}
@@ -19,8 +21,10 @@ for p in sorted(glob.glob('/verif/seeded/*/meta.json')):
     verdicts = []
     for c in sorted(last):
         v = 'caught' if last[c]['caught'] else 'MISSED'
-        if last[c]['caught'] and not first[c]['caught']:
+        if last[c]['caught'] and (not first[c]['caught'] or (m.get('first_evaluation') and c == m['breaks_property'])):
             v = 'caught after strengthening (missed at first)'
+        if not last[c]['caught'] and m.get('lead_assessment'):
+            v = 'not caught; judged outside the statement (see meta.json)'
         verdicts.append('%s: %s' % (c, v))
     rows.append('| %s | %s | %s | %s |' % (m['id'], ', '.join(os.path.basename(f) for f in files), what.replace('|', '/'), '; '.join(verdicts)))
 table = '| seed | file | what it breaks and what it needs | quick tier verdict |\n|---|---|---|---|\n' + '\n'.join(rows) + '\n'
